@@ -1,25 +1,159 @@
 import Driver.Util
 import StoneVerif.Model.Fmt
+import StoneVerif.Model.Path
+import StoneVerif.Model.Wrap
+import StoneVerif.Model.Emit
+import StoneVerif.Model.Manifest
 /-! Protocol handlers of the `be.*` suites (C18). -/
 open Lean
 namespace Driver.Be
 open StoneVerif
 
+/-- The harness splits the driver's output with `str.splitlines()`, which also breaks at U+0085, U+2028 and
+U+2029 (Lean's JSON printer leaves them unescaped). Those three and the escape character itself are sent as
+U+E000 followed by four hex digits; `harness/suites/be.py` undoes this. -/
+def hex4 (n : Nat) : List Char :=
+  let d (k : Nat) : Char := "0123456789abcdef".toList.getD k '0'
+  [d (n / 4096 % 16), d (n / 256 % 16), d (n / 16 % 16), d (n % 16)]
+
+def wireEscape : List Char → List Char
+  | [] => []
+  | c :: cs =>
+    if c.toNat == 0x85 || c.toNat == 0x2028 || c.toNat == 0x2029 || c.toNat == 0xE000 then
+      Char.ofNat 0xE000 :: hex4 c.toNat ++ wireEscape cs
+    else c :: wireEscape cs
+
+def jsStr (s : List Char) : Json := Json.str (String.ofList (wireEscape s))
+
 def optStr : Option (List Char) → Json
-  | some s => Json.str (String.ofList s)
+  | some s => jsStr s
   | none => Json.null
+
+def strOf (j : Json) : Except String (List Char) := do pure (← j.getStr?).toList
+
+def optStrOf (j : Json) : Except String (Option (List Char)) :=
+  match j with
+  | .null => pure none
+  | _ => do pure (some (← j.getStr?).toList)
+
+def optIntOf (j : Json) : Except String (Option Int) :=
+  match j with
+  | .null => pure none
+  | _ => do pure (some (← j.getInt?))
+
+/-- emit scripts are sent as nested arrays: `[tag, args…]`, bodies as arrays of ops -/
+partial def parseOp (j : Json) : Except String Emit.Op := do
+  let a ← j.getArr?
+  let tag ← (a[0]?.getD Json.null).getStr?
+  let arg (i : Nat) : Json := a[i]?.getD Json.null
+  let body (i : Nat) : Except String (List Emit.Op) := do
+    let b ← (arg i).getArr?
+    b.toList.mapM parseOp
+  match tag with
+  | "emit" => pure (.emit (← strOf (arg 1)))
+  | "raw" => pure (.emitRaw (← strOf (arg 1)))
+  | "ph" => pure (.placeholder (← strOf (arg 1)))
+  | "pos" => pure (.addPos (← strOf (arg 1)))
+  | "named" => pure (.addNamed (← strOf (arg 1)) (← strOf (arg 2)))
+  | "wrapped" =>
+    pure (.wrapped (← strOf (arg 1)) (← strOf (arg 2)) (← strOf (arg 3)) (← strOf (arg 4)) (← (arg 5).getInt?))
+  | "indent" => pure (.indent (← optIntOf (arg 1)) (← body 2))
+  | "block" =>
+    pure (.block (← strOf (arg 1)) (← strOf (arg 2)) (← optStrOf (arg 3)) (← optStrOf (arg 4))
+      (← optIntOf (arg 5)) (← (arg 6).getBool?) (← body 7))
+  | "mlist" =>
+    let items ← (← (arg 1).getArr?).toList.mapM strOf
+    pure (.mlist items (← strOf (arg 2)) (← strOf (arg 3)) (← strOf (arg 4)) (← strOf (arg 5))
+      (← (arg 6).getBool?) (← strOf (arg 7)) (← (arg 8).getBool?))
+  | t => throw s!"unknown emit op {t}"
+
+def errName : Emit.Err → String
+  | .newlineInEmit => "newlineInEmit"
+  | .rawNoNewline => "rawNoNewline"
+  | .negativeDent => "negativeDent"
+  | .badWidth => "badWidth"
+  | .format => "format"
+  | .nameOutsideModel => "nameOutsideModel"
+
+def parseMOp (j : Json) : Except String Manifest.Op := do
+  let a ← j.getArr?
+  let tag ← (a[0]?.getD Json.null).getStr?
+  let arg (i : Nat) : Json := a[i]?.getD Json.null
+  match tag with
+  | "out" => pure (.out (← strOf (arg 1)) (← (arg 2).getBool?) (← strOf (arg 3)))
+  | "copy" => pure (.copy (← strOf (arg 1)) (← strOf (arg 2)) (← strOf (arg 3)))
+  | "swift" => pure (.swiftWrite (← strOf (arg 1)) (← strOf (arg 2)))
+  | t => throw s!"unknown manifest op {t}"
+
+def compsJson (c : List (List Char)) : Json := Json.arr (c.map jsStr).toArray
 
 def handle (op : String) (j : Json) : Except String Json := do
   match op with
   | "be.escape" =>
     let s ← jstr j "text"
-    pure <| ok [("out", Json.str (String.ofList (Fmt.escape s.toList)))]
+    pure <| ok [("out", jsStr (Fmt.escape s.toList))]
   | "be.format" =>
     let buf ← jstr j "buf"
     let pos ← strList j "pos"
     let named ← pairList j "named"
     let named' ← named.mapM fun (k, v) => do pure (k.toList, (← v.getStr?).toList)
     pure <| ok [("out", optStr (Fmt.pyFormat named' (pos.map String.toList) buf.toList))]
+  | "be.path" =>
+    -- {cwd, root, path, join}: `join` = the path is relative to root (`os.path.join(root, path)` first)
+    let cwd := (← jstr j "cwd").toList
+    let root := (← jstr j "root").toList
+    let path := (← jstr j "path").toList
+    let join ← jbool j "join"
+    let full0 := if join then Path.join2 root path else path
+    -- `then`: copy_to_path found `dst` to be a directory and appends basename(src)
+    let full := match jopt j "then" with
+      | some (Json.str t) => Path.join2 full0 t.toList
+      | _ => full0
+    let res := Path.relativeOutputPath cwd root full
+    pure <| ok [("full", jsStr full),
+                ("abs", jsStr (Path.abspath cwd full)),
+                ("accepted", Json.bool res.toOption.isSome),
+                ("rel", optStr res.toOption),
+                ("rootComps", compsJson (Path.absComps cwd root)),
+                ("pathComps", compsJson (Path.absComps cwd full)),
+                ("dirname", jsStr (Path.dirname full)),
+                ("basename", jsStr (Path.basename full))]
+  | "be.emit" =>
+    let tabs ← jbool j "tabs"
+    let script ← (← jarr j "script").toList.mapM parseOp
+    let ref := Emit.refText tabs script
+    match Emit.runScript tabs script with
+    | .ok t => pure <| ok [("ok", Json.bool true), ("out", jsStr t), ("ref", optStr ref)]
+    | .error e => pure <| ok [("ok", Json.bool false), ("err", Json.str (errName e)), ("ref", optStr ref)]
+  | "be.wrap" =>
+    let text := (← jstr j "text").toList
+    let ini := (← jstr j "ini").toList
+    let sub := (← jstr j "sub").toList
+    let width ← jint j "width"
+    match Wrap.wrap width ini sub text with
+    | .ok lines =>
+      pure <| ok [("ok", Json.bool true), ("out", jsStr (Wrap.joinLines lines)),
+                  ("lines", Json.arr (lines.map jsStr).toArray),
+                  ("words", Json.arr ((Wrap.words text).map jsStr).toArray)]
+    | .error _ => pure <| ok [("ok", Json.bool false)]
+  | "be.manifest" =>
+    let cwd := (← jstr j "cwd").toList
+    let root := (← jstr j "root").toList
+    let manifest ← jbool j "manifest"
+    let dirs ← (← jarr j "dirs").toList.mapM fun d => do (← d.getArr?).toList.mapM strOf
+    let ops ← (← jarr j "ops").toList.mapM parseMOp
+    let cfg : Manifest.Cfg := { cwd := cwd, root := root }
+    let fs0 : Manifest.FS := { files := [], dirs := dirs }
+    let r := Manifest.run manifest cfg { fs := fs0, log := [] } ops
+    let status := match r.2 with
+      | none => "ok"
+      | some .refused => "refused"
+      | some .io => "io"
+    pure <| ok [("status", Json.str status),
+                ("log", Json.arr (r.1.log.map jsStr).toArray),
+                ("outputs", Json.arr ((Manifest.sortDedup r.1.log).map jsStr).toArray),
+                ("files", Json.arr (r.1.fs.files.map fun kv =>
+                    Json.arr #[compsJson kv.1, jsStr kv.2]).toArray)]
   | _ => throw s!"unknown op {op}"
 
 end Driver.Be
